@@ -61,7 +61,7 @@ ASSUMPTIONS = ["integer arithmetic of write_to_vti modelled by 16-bit unsigned b
                "with size c*nnodes; block vectors (r, c*n) / (c*n, r) are meant as r vectors",
                "np.nditer on object arrays is replaced by the pure-Python iterator of symx.npshim in the symbolic run; the "
                "concrete twin runs the real np.nditer"]
-ITEM_TIMEOUT = {"quick": 110, "thorough": 600}
+ITEM_TIMEOUT = {"quick": 240, "thorough": 600}
 REPLAYS_PER_GROUP = 2
 WIDTH = 16
 CMAX = 6
